@@ -29,7 +29,7 @@ def run(ctx):
     behs = [b for b in behs if b["fails"]]
     pick = behs if ctx.thorough and len(behs) < 600 else ctx.rng.sample(behs, min(len(behs), 600 if ctx.thorough else 36))
     specs = sc.schedules_to_specs(pick, "cf")
-    obs = core.pmap(sc.run_and_trace, specs, procs=6, chunksize=1)
+    obs = core.tmap(sc.run_and_trace, specs, threads=8)
     items = sc.judge_runs(ctx, specs, obs, "C14")
     if items:
         ctx.sample({"graph": specs[0]["graph"], "fails": specs[0]["fails"], "order": specs[0]["order"], "events": items[0][2]})
